@@ -184,7 +184,7 @@ class Ctx:
         """A concrete input on which the property fails on the real code.
         `known` = id of the KNOWN_FINDINGS entry it is attributed to (counterfactually), if any."""
         if known is not None and known in self.kf and self.kf[known].get("status") == "known":
-            self.known_hits.setdefault(known, self.kf[known].get("what", clause))
+            self.known_hits.setdefault(known, self.kf[known].get("line") or self.kf[known].get("what", clause))
             return
         if len(self.failing) < 20:
             self.failing.append({"clause": clause, "case": case, "detail": _short(detail, 2000)})
@@ -197,7 +197,7 @@ class Ctx:
             return
         if e.get("status") == "known":
             if still_fails:
-                self.known_hits.setdefault(fid, e.get("what", fid))
+                self.known_hits.setdefault(fid, e.get("line") or e.get("what", fid))
             else:
                 self.extra.setdefault("known_findings_no_longer_failing", []).append(fid)
         elif e.get("status") == "fixed" and still_fails:
